@@ -18,6 +18,7 @@ import (
 	_ "github.com/btcsuite/btcwallet/walletdb/bdb"
 	"github.com/lightninglabs/neutrino/banman"
 
+	"verif/internal/chaingen"
 	"verif/internal/evid"
 	"verif/internal/l2"
 	"verif/internal/netsim"
@@ -58,6 +59,7 @@ type enfRun struct {
 	syncSeq      int64           // log length once the initial sync was complete (0 = never)
 	bannedAtSync map[string]bool // addresses seen banned by then
 	giveUp       func() bool     // optional: stop waiting for the tip (the oracle has what it needs)
+	lateHeld     string          // why the late peers were never admitted ("" = they were)
 	polls        atomic.Int64
 	rounds       atomic.Int64
 	stall        atomic.Int64 // max scheduling gap seen by the stall detector (ns)
@@ -268,12 +270,13 @@ func EnforceScenario(seed int64, k int, res *l2.Result) {
 		}
 	}
 
-	if x.giveUp == nil {
-		// With every honest peer banned the client cannot reach the honest
-		// tip any more: no point in waiting for it. Nor when an at-tip liar
-		// was asked for the same filter headers over and over without being
-		// banned (steering only: the oracle counts the rounds from the log).
-		x.giveUp = func() bool {
+	// With every honest peer banned the client cannot reach the honest tip any
+	// more: no point in waiting for it. Nor when an at-tip liar was asked for
+	// the same filter headers over and over without being banned (steering
+	// only: the oracle counts the rounds from the log).
+	var defaultGiveUp func() bool
+	{
+		defaultGiveUp = func() bool {
 			if !plan.checkpointed() {
 				for _, ep := range e.Peers {
 					if ep.Plan.Class == clLiar && !ep.Plan.Late && ep.P.RxCount("getcfheaders") >= conflictRounds+3 {
@@ -295,10 +298,39 @@ func EnforceScenario(seed int64, k int, res *l2.Result) {
 			return n > 0
 		}
 	}
+	if x.giveUp == nil {
+		x.giveUp = defaultGiveUp
+	}
+	// firstPhaseBanned: every peer that is not a late one has been seen banned.
+	firstPhaseBanned := func() bool {
+		for _, ep := range e.Peers {
+			if !ep.Plan.Late {
+				if _, banned := x.sight(ep.P.Addr); !banned {
+					return false
+				}
+			}
+		}
+		return true
+	}
+	if plan.Kind == kindOnlyLiars {
+		// Nobody of the first phase can take the client to the tip. The
+		// phase is over once all of them are banned, or once a liar has been
+		// asked for the same filter headers over and over without a ban.
+		x.giveUp = func() bool {
+			for _, ep := range e.Peers {
+				if ep.Plan.Class == clLiar && !ep.Plan.Late && ep.P.RxCount("getcfheaders") >= conflictRounds+2 {
+					if _, banned := x.sight(ep.P.Addr); !banned {
+						return true
+					}
+				}
+			}
+			return firstPhaseBanned()
+		}
+	}
 
 	// Phase 1: initial sync (most lies about filter headers are told here).
 	synced := x.awaitTip(syncWatchdog, 3*time.Second)
-	if synced {
+	markSync := func() {
 		// The sync point: whatever lie went into the filter headers the
 		// client has now committed was judged by it before this moment.
 		x.settle()
@@ -310,19 +342,48 @@ func EnforceScenario(seed int64, k int, res *l2.Result) {
 		}
 		x.mu.Unlock()
 	}
+	if synced {
+		markSync()
+	}
 
 	// Late peers come in now (a late liar can only show the false previous
 	// filter header its lie leads to, at the next announced block).
-	for _, ep := range e.Peers {
-		if ep.Plan.Late {
-			w.Net.Refuse(ep.P.Addr, false)
+	if plan.Kind == kindOnlyLiars {
+		// Steering: the honest peers of this family only arrive once the
+		// liars-only phase ended the way the property demands. If it did not
+		// (nobody banned after several rounds) they stay away: the oracle
+		// then judges the liars-only phase alone. If the phase never took
+		// place (a liar's answer went uncontradicted because its companion
+		// was not asked the same question) the scenario observed nothing.
+		x.settle()
+		if who := x.uncontradictedLiar(); who != "" {
+			x.lateHeld = "steering failed: " + who + " answered a getcfheaders request no other peer answered"
+			res.Inconcl("only-liars scenario: a liar was asked for filter headers while it was alone (steering failed)")
+		} else if !synced && !firstPhaseBanned() {
+			x.lateHeld = "a peer of the liars-only phase is still not banned"
 		}
+		x.giveUp = defaultGiveUp
 	}
-	for _, ep := range e.Peers {
-		if ep.Plan.Late {
-			p := ep.P
-			l2.WaitFor(6*time.Second, func() bool { return settled(p) })
-			time.Sleep(60 * time.Millisecond)
+	if x.lateHeld == "" {
+		admitted := false
+		for _, ep := range e.Peers {
+			if ep.Plan.Late {
+				w.Net.Refuse(ep.P.Addr, false)
+				admitted = true
+			}
+		}
+		for _, ep := range e.Peers {
+			if ep.Plan.Late {
+				p := ep.P
+				l2.WaitFor(6*time.Second, func() bool { return settled(p) })
+				time.Sleep(60 * time.Millisecond)
+			}
+		}
+		if admitted && !synced && plan.Kind == kindOnlyLiars {
+			// Phase 1b: the late (honest) peers take the client to the tip.
+			if synced = x.awaitTip(syncWatchdog, 3*time.Second); synced {
+				markSync()
+			}
 		}
 	}
 
@@ -388,6 +449,7 @@ func EnforceScenario(seed int64, k int, res *l2.Result) {
 	// Final observations through the public API.
 	final := x.observeEnd()
 	final.Synced = synced
+	final.LateHeld = x.lateHeld
 	x.stopPoller()
 	stopOK, _ := w.StopClient(60 * time.Second)
 	if !stopOK {
@@ -572,6 +634,14 @@ type peerEnd struct {
 	// block to the client (everything needed to prove the lie was in its hands).
 	ConflictRounds      int `json:",omitempty"`
 	DisputedBlockServed int `json:",omitempty"`
+	// LiarOnlyRounds: of the ConflictRounds, those in which no honest peer
+	// took part (the contradiction came from another liar, or from a peer
+	// that backs up nothing it announces). SelfContradictions: how often
+	// this peer itself then served, for the disputed block, a filter that
+	// does not hash to the filter hash it had announced (its own two
+	// messages prove the announcement false; no block needed).
+	LiarOnlyRounds     int `json:",omitempty"`
+	SelfContradictions int `json:",omitempty"`
 	Detectable  string   `json:",omitempty"` // why the client could see the conflict ("" = it could not)
 	DetectSeq   int64    `json:",omitempty"` // log Seq of the first message that made it visible
 	BadServed   int      `json:",omitempty"` // mutated blocks sent in answer to getdata
@@ -588,6 +658,7 @@ type enfEnd struct {
 	FilterTip     uint32
 	BlockTip      uint32
 	StoreTruth    string // "" = committed filter headers equal the ground truth
+	LateHeld      string `json:",omitempty"` // why the late peers were never admitted
 	HonestUp      int    // honest/slow peers with an open, handshaken connection
 	MaxStallMs    int64
 	Polls         int64
@@ -721,6 +792,8 @@ func (x *enfRun) lieFacts(f *enfEnd, evs []netsim.Event) {
 	// true; and the first Seq at which one of them sent checkpoints.
 	honestAnswered := map[string]bool{}
 	honestCPAnswered := map[string]bool{} // note of a getcfcheckpt an honest peer answered
+	// Every full-chain peer that answered a getcfheaders request, by request.
+	answers := cfheadersAnswers(e, func(addr string) []connView { return byAddr[addr].views })
 	firstHonestCP := int64(-1)
 	for _, ep := range e.Peers {
 		switch ep.Plan.Class {
@@ -849,12 +922,19 @@ func (x *enfRun) lieFacts(f *enfEnd, evs []netsim.Event) {
 					if hashTold && ep.Plan.Lie.Height >= start && ep.Plan.Lie.Height < start+n {
 						pe.LieTold = "cfheaders"
 						f.conflictsSeen = true
+						other := contradictor(answers[pend.Note], ep, lieNode, start)
 						switch {
 						case ep.Plan.Class == clBatchLiar && sentCP && int(ep.Plan.Lie.Height) <= e.Plan.ChainLen/1000*1000:
 							pe.Detectable = "the response contradicts the (true) filter checkpoints this very peer had served before"
 						case honestAnswered[pend.Note]:
 							pe.Detectable = "an honest peer answered the same getcfheaders request"
 							pe.ConflictRounds++
+						case other != "" && !e.Plan.checkpointed():
+							if !strings.HasPrefix(pe.Detectable, "an honest peer") {
+								pe.Detectable = "another peer (" + other + ") answered the same getcfheaders request with a different filter hash for that block"
+							}
+							pe.ConflictRounds++
+							pe.LiarOnlyRounds++
 						case pe.Detectable == "" && firstHonestCP >= 0 && firstHonestCP < ev.Seq && e.Plan.checkpointed() &&
 							int(ep.Plan.Lie.Height) <= e.Plan.ChainLen/1000*1000:
 							pe.Detectable = "an honest peer's filter checkpoints were known before the lie was told"
@@ -878,6 +958,16 @@ func (x *enfRun) lieFacts(f *enfEnd, evs []netsim.Event) {
 						for _, ev := range cv.evs {
 							if ev.Dir == "tx" && ev.Cmd == "block" && ev.Seq > pe.DetectSeq && strings.HasPrefix(ev.Note, pfx) {
 								pe.DisputedBlockServed++
+							}
+						}
+					}
+				}
+				if ep.Liar.ClaimedHash(lieNode) != lieNode.FilterHash && ep.Plan.Lie.Kind == netsim.LieWrongHash {
+					// This liar serves the TRUE filter of the block.
+					for _, cv := range pe.views {
+						for _, ev := range cv.evs {
+							if ev.Dir == "tx" && ev.Cmd == "cfilter" && ev.Seq > pe.DetectSeq && strings.HasPrefix(ev.Note, "block="+pfx) {
+								pe.SelfContradictions++
 							}
 						}
 					}
@@ -924,6 +1014,105 @@ func (x *enfRun) lieFacts(f *enfEnd, evs []netsim.Event) {
 			pe.Excuse = "the peer dropped its own connection in a session with filter-header conflicts"
 		}
 	}
+}
+
+// cfheadersAnswers lists, per getcfheaders request (its log note: start and
+// stop), the full-chain peers that answered it with a non-empty cfheaders
+// message.
+func cfheadersAnswers(e *enfWorld, views func(addr string) []connView) map[string][]*enfPeer {
+	out := map[string][]*enfPeer{}
+	for _, ep := range e.Peers {
+		if !ep.full {
+			continue
+		}
+		seen := map[string]bool{}
+		for _, cv := range views(ep.P.Addr) {
+			var pend *netsim.Event
+			for i := range cv.evs {
+				ev := cv.evs[i]
+				switch {
+				case ev.Dir == "rx":
+					pend = nil
+					if ev.Cmd == "getcfheaders" {
+						pend = &cv.evs[i]
+					}
+				case ev.Dir == "tx" && ev.Cmd == "cfheaders" && pend != nil:
+					var n int32
+					fmt.Sscanf(ev.Note, "n=%d", &n)
+					if n > 0 && !seen[pend.Note] {
+						seen[pend.Note] = true
+						out[pend.Note] = append(out[pend.Note], ep)
+					}
+					pend = nil
+				}
+			}
+		}
+	}
+	return out
+}
+
+// contradictor returns the label of a peer among those that answered the
+// same getcfheaders request (first height: start) as the liar `me` whose
+// announced filter hash for block n differs from the liar's, n being the
+// FIRST block of the response the two disagree about ("" = no such peer).
+// The client settles a disagreement at the lowest height first and discards
+// the whole answer of a peer it finds wrong there: a peer that already
+// differs from the liar below n does not put the liar's claim about n on the
+// table.
+func contradictor(answerers []*enfPeer, me *enfPeer, n *chaingen.Node, start int32) string {
+	claim := func(p *enfPeer, b *chaingen.Node) chainhash.Hash {
+		if p.Liar != nil {
+			return p.Liar.ClaimedHash(b)
+		}
+		return b.FilterHash
+	}
+	if start < 1 {
+		start = 1
+	}
+next:
+	for _, q := range answerers {
+		if q == me || claim(q, n) == claim(me, n) {
+			continue
+		}
+		for h := start; h < n.Height; h++ {
+			if b := n.Ancestor(h); b != nil && claim(q, b) != claim(me, b) {
+				continue next
+			}
+		}
+		return q.Plan.label()
+	}
+	return ""
+}
+
+// uncontradictedLiar (steering aid, read during the run): a liar of the
+// first phase that answered a getcfheaders request covering its lie which no
+// other peer answered with a different hash. "" = none.
+func (x *enfRun) uncontradictedLiar() string {
+	e, w := x.e, x.e.W
+	evs := w.Log.Snapshot()
+	views := map[string][]connView{}
+	for _, ep := range e.Peers {
+		views[ep.P.Addr] = connViews(w, ep.P.Addr, evs)
+	}
+	answers := cfheadersAnswers(e, func(addr string) []connView { return views[addr] })
+	tip := e.Tip()
+	for note, who := range answers {
+		var start int32
+		fmt.Sscanf(note, "start=%d", &start)
+		for _, ep := range who {
+			if ep.Liar == nil || ep.Plan.Late || ep.Plan.Lie.Height < start {
+				continue
+			}
+			n := tip.Ancestor(ep.Plan.Lie.Height)
+			if n == nil || !ep.Liar.LiesAbout(n) {
+				continue
+			}
+			if contradictor(who, ep, n, start) == "" {
+				return ep.Plan.label() + " peer " + ep.P.Addr
+			}
+		}
+	}
+	return ""
 }
 
 // readStore reopens the database after the client stopped and reads the ban
@@ -1075,15 +1264,20 @@ func (x *enfRun) judge(f *enfEnd) {
 				mustReason = []string{"InvalidFilterHeader", "InvalidFilterHeaderCheckpoint"}
 				why = "it served a provably false filter hash (" + pe.Label + ") while " + pe.Detectable +
 					", and the client's committed filter headers passed that height"
-			} else if pe.LieTold == "cfheaders" && pe.ConflictRounds >= conflictRounds && pe.DisputedBlockServed > 0 &&
-				!e.Plan.checkpointed() {
+			} else if pe.LieTold == "cfheaders" && pe.ConflictRounds >= conflictRounds &&
+				(pe.DisputedBlockServed > 0 || pe.SelfContradictions > 0) && !e.Plan.checkpointed() {
 				// Bounded progress instead of "eventually": the conflict was
 				// on the client's table several times over and it was handed
-				// the block that decides it.
+				// what decides it (the block, or a filter from the liar
+				// itself that does not hash to what the liar announced).
 				mustReason = []string{"InvalidFilterHeader", "InvalidFilterHeaderCheckpoint"}
-				why = fmt.Sprintf("it served a provably false filter hash (%s) while %s, %d times over, and the disputed block was served to the client %d time(s) after the conflict first became visible; committed filter tip %d, lie at height %d",
-					pe.Label, pe.Detectable, pe.ConflictRounds, pe.DisputedBlockServed, f.FilterTip, lieH)
+				why = fmt.Sprintf("it served a provably false filter hash (%s) while %s, %d times over, and after the conflict first became visible the disputed block was served to the client %d time(s) and the peer itself served %d time(s) a filter for that block that does not hash to the filter hash it announced; committed filter tip %d, lie at height %d",
+					pe.Label, pe.Detectable, pe.ConflictRounds, pe.DisputedBlockServed, pe.SelfContradictions, f.FilterTip, lieH)
 				pathSuffix = "/conflict-resolution-went-round-in-circles"
+			}
+			res.Count("enf_conflict_rounds_without_an_honest_peer", int64(pe.LiarOnlyRounds))
+			if pe.SelfContradictions > 0 {
+				res.Count("enf_lies_proven_by_the_liars_own_filter", 1)
 			}
 		case clCPOnly:
 			res.Count("enf_checkpoint_only_lie_rounds", int64(pe.LieRounds))
@@ -1091,6 +1285,13 @@ func (x *enfRun) judge(f *enfEnd) {
 				mustReason = []string{"InvalidFilterHeaderCheckpoint", "InvalidFilterHeader"}
 				why = fmt.Sprintf("it served a false filter checkpoint (its own cfheaders, which it served correctly, do not add up to it) while %s, and the client then went through %d round(s) of checkpoint conflict resolution (cfheaders of the disputed interval from the liar and from honest peers); committed filter tip %d of %d block headers",
 					pe.Detectable, pe.LieRounds, f.FilterTip, f.BlockTip)
+			}
+		case clMute:
+			// Not a subject of the property either way: it announced nothing
+			// false, and banning a peer that does not answer is by design.
+			res.Count("enf_mute_peers", 1)
+			if banned {
+				res.Count("enf_mute_peers_banned_as_non_responders", 1)
 			}
 		case clBadBlock:
 			res.Count("enf_bad_blocks_served", int64(pe.BadServed))
@@ -1201,7 +1402,7 @@ func (x *enfRun) judge(f *enfEnd) {
 	}
 
 	// (e): the bans did not take the client down.
-	if f.HonestUp == 0 {
+	if f.HonestUp == 0 && f.LateHeld == "" {
 		anyHonestBanned := false
 		for _, pe := range f.Peers {
 			if (pe.Class == clHonest || pe.Class == clSlow) && (pe.StoreBanned || pe.BannedAPI) {
@@ -1235,6 +1436,39 @@ func (x *enfRun) judge(f *enfEnd) {
 	for _, pe := range f.Peers {
 		res.Count("enf_connections", int64(pe.Conns))
 		res.Count("enf_peer_self_disconnects", int64(pe.SelfDisconnects))
+	}
+	if plan.Kind == kindOnlyLiars {
+		// What became of the liars-only phase.
+		var first []string
+		allBanned, liarRounds := true, 0
+		for _, pe := range f.Peers {
+			if pe.Class == clLiar || pe.Class == clMute {
+				first = append(first, pe.Label)
+				allBanned = allBanned && (pe.StoreBanned || pe.BannedAPI)
+				liarRounds += pe.LiarOnlyRounds
+			}
+		}
+		sort.Strings(first)
+		out := "not-all-banned"
+		switch {
+		case strings.HasPrefix(f.LateHeld, "steering failed"):
+			out = "steering-failed"
+		case allBanned && f.Synced && f.LateHeld == "":
+			out = "all-banned-then-synced-from-late-honest-peers"
+		case allBanned:
+			out = "all-banned"
+		}
+		res.Count("enf_onlyliars_scenarios", 1)
+		if liarRounds > 0 {
+			res.Count("enf_onlyliars_conflict_seen_among_liars_only", 1)
+		}
+		if allBanned {
+			res.Count("enf_onlyliars_every_peer_of_the_conflict_banned", 1)
+		}
+		if f.LateHeld == "" {
+			res.Count("enf_onlyliars_late_honest_peers_admitted", 1)
+		}
+		res.Mark(fmt.Sprintf("enf/onlyliars/%s/%s", strings.Join(first, "+"), out))
 	}
 	switch plan.Kind {
 	case kindCPOnly:
